@@ -284,6 +284,12 @@ def beta_reduce(call):
     for p, v in zip(a.args, call.args):
         free = {n.id for n in ast.walk(v) if isinstance(n, ast.Name)} - _bound_inside(v)
         once = sum(1 for n in ast.walk(f.body) if isinstance(n, ast.Name) and n.id == p.arg) == 1
+        # the body is a generator expression whose first iterable is the parameter: evaluated on the spot, like the argument
+        first_iter = once and isinstance(f.body, ast.GeneratorExp) and isinstance(f.body.generators[0].iter, ast.Name) \
+            and f.body.generators[0].iter.id == p.arg and len(call.args) == 1
+        if first_iter and not (free & (inner - {p.arg})):
+            subst[p.arg] = v
+            continue
         if (_simple(v) or isinstance(v, ast.Lambda) or (pure_read(v) and once)) and not (free & inner) and p.arg not in inner:
             subst[p.arg] = v
         else:
@@ -430,8 +436,100 @@ class Inliner(object):
             changed = True
         return changed
 
+    def generator_helper(self, call, local):
+        """helper generator function for ``call`` (statement-level yields only, no return), else None"""
+        if not isinstance(call, ast.Call):
+            return None, None
+        h, lead = None, None
+        if isinstance(call.func, ast.Name):
+            h, lead = local.get(call.func.id) or self.helpers.get(call.func.id), []
+        elif isinstance(call.func, ast.Attribute) and isinstance(call.func.value, ast.Name) and call.func.value.id == "self" \
+                and call.func.attr in self.methods:
+            h, lead = self.methods[call.func.attr], [ast.Name(id="self", ctx=ast.Load())]
+        if h is None or _recursive(h):
+            return None, None
+        ys = [n for n in ast.walk(h) if isinstance(n, (ast.Yield, ast.YieldFrom))]
+        if not ys or any(isinstance(n, (ast.YieldFrom, ast.Return, ast.Global, ast.Nonlocal)) for n in ast.walk(h)):
+            return None, None
+        stmt_yields = [n for n in ast.walk(h) if isinstance(n, ast.Expr) and isinstance(n.value, ast.Yield)]
+        if len(stmt_yields) != len(ys):
+            return None, None          # a yield whose value is used
+        return h, lead
+
+    def for_over_generator(self, st, local):
+        """for T in gen(args): BODY   ->   gen's body with every ``yield E`` replaced by  T = E ; BODY"""
+        if not (isinstance(st, ast.For) and not st.orelse and isinstance(st.target, ast.Name)):
+            return None
+        # for x in (A, B, C): BODY  with generator-helper calls among A, B, C: unrolled first (creating the generators
+        # has no effect, their bodies run when iterated)
+        if isinstance(st.iter, (ast.Tuple, ast.List)) and st.iter.elts and len(st.body) <= 3 and any(
+                self.generator_helper(e, local)[0] is not None for e in st.iter.elts) and all(
+                isinstance(e, ast.Name) or (isinstance(e, ast.Call) and all(_simple(a) for a in e.args) and not e.keywords
+                                            and self.generator_helper(e, local)[0] is not None) for e in st.iter.elts) \
+                and not any(isinstance(n, (ast.Break, ast.Continue)) for b in st.body for n in ast.walk(b)):
+            out = []
+            for e in st.iter.elts:
+                body = [ast.parse(ast.unparse(b)).body[0] for b in st.body]
+                body = [_Subst({st.target.id: e}).visit(b) for b in body]
+                out.extend(body)
+            return out
+        h, lead = self.generator_helper(st.iter, local)
+        if h is None:
+            return None
+        if any(isinstance(n, (ast.Break, ast.Continue, ast.Return)) for b in st.body for n in ast.walk(b)):
+            return None
+        bound = _bind(h, st.iter, lead)
+        if bound is None or not all(_simple(v) for _, v in bound):
+            return None
+        hc = _clean(h)
+        body = docstring_free(hc.body)
+        self.counter += 1
+        suffix = "__in%d" % self.counter
+        params = [p for p, _ in bound]
+        mod = ast.Module(body=body, type_ignores=[])
+        stored = {n.id for n in ast.walk(mod) if isinstance(n, ast.Name) and isinstance(n.ctx, (ast.Store, ast.Del))}
+        if stored & set(params):
+            return None
+        for n in ast.walk(mod):
+            if isinstance(n, ast.Name) and n.id in stored:
+                n.id = n.id + suffix
+        mod = _Subst(dict(bound)).visit(mod)
+        tname = st.target.id
+        loop_body_src = [ast.unparse(b) for b in st.body]
+
+        def repl(stmts):
+            out = []
+            for s_ in stmts:
+                if isinstance(s_, ast.Expr) and isinstance(s_.value, ast.Yield):
+                    val = s_.value.value if s_.value.value is not None else ast.Constant(value=None)
+                    out.append(ast.Assign(targets=[ast.Name(id=tname, ctx=ast.Store())], value=val, lineno=st.lineno, col_offset=0))
+                    out.extend(ast.parse(src).body[0] for src in loop_body_src)
+                    continue
+                for fld in ("body", "orelse", "finalbody"):
+                    b = getattr(s_, fld, None)
+                    if isinstance(b, list) and b and isinstance(b[0], ast.stmt):
+                        setattr(s_, fld, repl(b))
+                for hh in getattr(s_, "handlers", []) or []:
+                    hh.body = repl(hh.body)
+                out.append(s_)
+            return out
+        new = repl(mod.body)
+        for n_ in new:
+            for x in ast.walk(n_):
+                if isinstance(x, (ast.stmt, ast.expr)):
+                    x.lineno = getattr(st, "lineno", 1)
+                    x.end_lineno = getattr(st, "lineno", 1)
+                    x.col_offset = 0
+                    x.end_col_offset = 0
+        self.done.append(h.name)
+        return _fix_empty(new)
+
     def statement(self, st, local):
         """[statements] replacing ``st`` or None"""
+        if isinstance(st, ast.For):
+            rep = self.for_over_generator(st, local)
+            if rep is not None:
+                return rep
         if not isinstance(st, FuncTypes + (ast.ClassDef,)) and self.expressions(st, local):
             return [st]
         call, kind = None, None
